@@ -18,6 +18,7 @@ class StatementSplitter:
         """Set the filter attributes to its default values"""
         self._in_declare = False
         self._in_case = 0
+        self._in_loop_header = False
         self._is_create = False
         self._begin_depth = 0
 
@@ -76,9 +77,19 @@ class StatementSplitter:
             if unified == 'CASE':
                 # CASE can be nested (an expression inside a CASE statement)
                 self._in_case += 1
+            elif unified != 'IF':
+                # FOR/WHILE ... LOOP: this LOOP doesn't open another block
+                self._in_loop_header = True
             return 1
 
-        if unified in ('END IF', 'END FOR', 'END WHILE'):
+        if unified in ('LOOP', 'DO') and self._in_loop_header:
+            self._in_loop_header = False
+            return 0
+
+        if unified == 'LOOP' and self._is_create and self._begin_depth > 0:
+            return 1
+
+        if unified in ('END IF', 'END FOR', 'END WHILE', 'END LOOP'):
             return -1
 
         # Default
